@@ -34,6 +34,9 @@ type memDS struct {
 	log     *[]dsMutation // shared mutation log when recording
 	hook    func(op string, key string)
 	onPut   func(key string, val []byte)
+	// fail, when set, is consulted before every operation; a non-nil answer is returned as the operation's error
+	// (a transient storage fault: nothing is read or written)
+	fail func(op string, key string) error
 }
 
 type dsMutation struct {
@@ -99,6 +102,11 @@ func (d *memDS) applyMutation(m dsMutation) {
 }
 
 func (d *memDS) Get(ctx context.Context, key datastore.Key) ([]byte, error) {
+	if d.fail != nil {
+		if err := d.fail("get", key.String()); err != nil {
+			return nil, err
+		}
+	}
 	if d.hook != nil {
 		d.hook("get", key.String())
 	}
@@ -112,6 +120,11 @@ func (d *memDS) Get(ctx context.Context, key datastore.Key) ([]byte, error) {
 }
 
 func (d *memDS) Has(ctx context.Context, key datastore.Key) (bool, error) {
+	if d.fail != nil {
+		if err := d.fail("has", key.String()); err != nil {
+			return false, err
+		}
+	}
 	if d.hook != nil {
 		d.hook("has", key.String())
 	}
@@ -148,6 +161,11 @@ func (d *memDS) Query(ctx context.Context, q dsq.Query) (dsq.Results, error) {
 }
 
 func (d *memDS) Put(ctx context.Context, key datastore.Key, value []byte) error {
+	if d.fail != nil {
+		if err := d.fail("put", key.String()); err != nil {
+			return err
+		}
+	}
 	if d.hook != nil {
 		d.hook("put", key.String())
 	}
@@ -163,6 +181,11 @@ func (d *memDS) Put(ctx context.Context, key datastore.Key, value []byte) error 
 }
 
 func (d *memDS) Delete(ctx context.Context, key datastore.Key) error {
+	if d.fail != nil {
+		if err := d.fail("delete", key.String()); err != nil {
+			return err
+		}
+	}
 	if d.hook != nil {
 		d.hook("delete", key.String())
 	}
@@ -200,6 +223,11 @@ func (b *memBatch) Delete(ctx context.Context, key datastore.Key) error {
 }
 
 func (b *memBatch) Commit(ctx context.Context) error {
+	if b.d.fail != nil {
+		if err := b.d.fail("commit", fmt.Sprintf("%d ops", len(b.ops))); err != nil {
+			return err
+		}
+	}
 	if b.d.hook != nil {
 		b.d.hook("commit", fmt.Sprintf("%d ops", len(b.ops)))
 	}
